@@ -62,7 +62,7 @@ fn probe(_out: &std::path::Path) -> i32 {
     let mut counts = std::collections::BTreeMap::new();
     let mut changed = 0;
     for (p, r) in progs.iter().zip(res.iter()) {
-        let k = match &r.status { pool::Status::Ok => if r.clean() { "clean" } else { "ok-with-flags" }, pool::Status::Err(_) => "err", pool::Status::Panic(m) => { eprintln!("panic {} {}", p.name, m); "panic" }, pool::Status::Timeout => "timeout", pool::Status::Died(_) => "died", pool::Status::BadConfig(_) => "badconfig" };
+        let k = match &r.status { pool::Status::Ok => if r.clean() { "clean" } else { "ok-with-flags" }, pool::Status::Err(_) => "err", pool::Status::Panic(m) => { eprintln!("panic {} {}", p.name, m); "panic" }, pool::Status::Timeout => "timeout", pool::Status::Died(_) => "died", pool::Status::BadConfig(_) => "badconfig", pool::Status::Infra(_) => "infra" };
         *counts.entry(k).or_insert(0) += 1;
         if r.clean() && r.out != p.src { changed += 1; if changed <= 3 { eprintln!("changed: {} {:?} outlen={} srclen={}", p.name, p.cfg, r.out.len(), p.src.len()); } }
         if !r.clean() && counts.len() < 10 && r.status == pool::Status::Ok { eprintln!("flags {} {:?} {:?}", p.name, r.flags, r.entries.first()); }
